@@ -1369,9 +1369,13 @@ def check_guarded_unwraps(rep, adt, prefix="unwrap", only_fields=None, max_depth
         opts_c = sorted(k[4:] for k in f_atoms(c) if k.startswith("opt:"))
         impl = [(a, b) for a in opts_g for b in opts_c if a != b and option_invariant(prog, a, b)[0]]
         if impl and entails(g, c, impl):
-            for ab in impl:
-                if not entails(g, c, [x for x in impl if x != ab]):
-                    used_inv[ab] = option_invariant(prog, *ab)[1]
+            core = list(impl)          # a minimal sufficient subset (redundant implications are dropped in a fixed order)
+            for ab in sorted(impl, reverse=True):
+                rest = [x for x in core if x != ab]
+                if entails(g, c, rest):
+                    core = rest
+            for ab in core:
+                used_inv[ab] = option_invariant(prog, *ab)[1]
             return True
         return False
 
@@ -2163,3 +2167,64 @@ def r8_14(rep):
         rep.check(bool(asks), "debug-array-asks-element", "the array arm asks whether the element type can be formatted" if asks else
                   "the array arm formats `self.<field>` without looking at the element type: an array of a blocklisted type needs `Blocked: Debug`",
                   b.loc(a["body"]))
+
+
+@RULES.rule("R8.15", "derives are decided for the item whose definition is being emitted", floor=3)
+def r8_15(rep):
+    """`derives_of_item(item, ..)` is where the user's per-item exclusions (`--no-copy X`, `--no-debug X`, the `nocopy` / `nodebug`
+    annotations, `--opaque-type X`) are read.  Each `CodeGenerator::codegen` that emits a definition must ask about the item it was
+    called for; asking about another item (the aliased type of a new-type alias, say) ignores the exclusions written against the
+    emitted name and imports those of the other item."""
+    prog = rep.prog
+    n = 0
+    for p, b in sorted(prog.bodies.items()):
+        for c in b.calls(lambda x: (x.get("callee") or "").endswith("codegen::derives_of_item")):
+            n += 1
+            a0 = strip(c["args"][0])
+            seen = 0
+            while a0.get("k") == "Local" and seen < 4:
+                d = b.local_def.get(a0["id"])
+                if d and d[0][0] == "param":
+                    break
+                init = b.local_init(a0["id"])
+                if init is None:
+                    break
+                a0 = strip(init)
+                seen += 1
+            params = b.fact.get("params") or []
+            is_codegen = (b.fact.get("impl_trait") or "").endswith("CodeGenerator") or p.endswith("::codegen")
+            ok = False
+            why = "the argument is `%s`" % b.canon(c["args"][0], 4)
+            if a0.get("k") == "Local":
+                d = b.local_def.get(a0["id"])
+                if d and d[0][0] == "param":
+                    idx = d[0][1] if len(d[0]) > 1 else None
+                    pty = b.ty(a0) or ""
+                    ok = "ir::item::Item" in pty and a0["id"] not in b.local_assigned
+                    why = "parameter `%s` (%s)" % (a0.get("name"), pty)
+            who = (b.fact.get("impl_self") or "").split("::")[-1]
+            rep.check(ok, "derives-for-emitted-item@%s" % ((who + "::" if who else "") + short(b.path)),
+                      "asks about the item being emitted: " + why if ok else
+                      "`derives_of_item` is asked about something other than the `item` this codegen was called for (%s): exclusions "
+                      "written against the emitted name are ignored" % why, b.loc(c))
+    rep.need(n >= 3, "calls to derives_of_item")
+
+
+@RULES.rule("R8.16", "the derive switches are closed under supertraits in every reachable option set", floor=5)
+def r8_16(rep):
+    """`#[derive(PartialOrd)]` needs PartialEq, `Ord` needs Eq and PartialOrd, `Eq` needs PartialEq.  All four traits share one
+    analysis result (R8.2), so the derive list is closed exactly when the switches are: `derive_ord ⇒ derive_partialord ∧ derive_eq`,
+    `derive_partialord ⇒ derive_partialeq`, `derive_eq ⇒ derive_partialeq`.  Each implication must start true (the antecedent
+    defaults to false) and be re-established by every function that assigns either flag, for every pre-state and both values of the
+    setter's argument (c12.flag_invariants executes the writers abstractly)."""
+    import c12
+    prog = rep.prog
+    invs = c12.flag_invariants(prog)
+    want = [("derive_ord", "derive_partialord"), ("derive_ord", "derive_eq"), ("derive_ord", "derive_partialeq"),
+            ("derive_partialord", "derive_partialeq"), ("derive_eq", "derive_partialeq")]
+    for A, B in want:
+        ws = invs.get((A, B))
+        rep.check(ws is not None, "closure:%s=>%s" % (A, B),
+                  "maintained by %s" % ", ".join(sorted(short(w.path) for w in ws)) if ws is not None else
+                  "some writer of `%s` / `%s` can leave `%s` on with `%s` off: `#[derive]` then lists a trait without its supertrait "
+                  "(does not compile), or the setter silently clears a switch the user turned on" % (A, B, A, B), "bindgen/options/mod.rs")
